@@ -66,6 +66,14 @@ def seeds() -> dict[str, list[tuple[str, bytes]]]:
     out["zip"].append(("gen/zip-second-member-unreadable", build_zip({"mech": "zip", "comment": "", "members": [
         {"name": "a.txt", "text": "text ZB00013", "enc": False, "deflate": False, "flags": 0, "method": None},
         {"name": "b.txt", "text": "text ZB00014", "enc": False, "deflate": False, "flags": 0, "method": 9}]})[0]))
+    import tarfile as _tar
+    tb = io.BytesIO()
+    with _tar.open(fileobj=tb, mode="w:gz", format=_tar.GNU_FORMAT, encoding="latin-1") as tf:
+        for nm, data in (("caf\xe9.txt", b"text ZB00015 in a member whose name is not UTF-8"), ("plain.txt", b"text ZB00016")):
+            ti = _tar.TarInfo(nm)
+            ti.size = len(data)
+            tf.addfile(ti, io.BytesIO(data))
+    out["tar.gz"].append(("gen/tar-latin1-member-name", tb.getvalue()))
     font, _ = cidpdf.digit_font()
     out["pdf"].append(("gen/cid", cidpdf.cid_pdf(font, [3, 11, 12, 4], {3: "A", 4: "B", 11: None, 12: None})))
     for e in EXTS:
@@ -123,23 +131,55 @@ class _StrictStdout(io.TextIOWrapper):
 
 def _cli(path: str, mode: list[str]):
     from sharepoint2text import cli
-    raw_out = io.BytesIO()
-    out = io.TextIOWrapper(raw_out, encoding="utf-8", errors="strict", newline="\n", write_through=False)
-    err = io.StringIO()
+    # file-descriptor level capture (this runs in a forked worker): whatever reaches fd 1 / fd 2 counts, also from libraries that kept a reference
+    # to the interpreter's original stdout; the Python-level stdout is a strict UTF-8 text stream on the same descriptor, as in a real terminal session
+    fo, fe = tempfile.TemporaryFile(), tempfile.TemporaryFile()
+    try:
+        sys.__stdout__.flush()
+        sys.__stderr__.flush()
+    except Exception:  # noqa
+        pass
+    old1, old2 = os.dup(1), os.dup(2)
+    os.dup2(fo.fileno(), 1)
+    os.dup2(fe.fileno(), 2)
+    out = io.TextIOWrapper(os.fdopen(os.dup(1), "wb"), encoding="utf-8", errors="strict", newline="\n", write_through=False)
+    err_stream = io.TextIOWrapper(os.fdopen(os.dup(2), "wb"), encoding="utf-8", errors="backslashreplace", newline="\n", write_through=True)
     code = None
     crashed = None
-    with contextlib.redirect_stdout(out), contextlib.redirect_stderr(err):
+    try:
+        with contextlib.redirect_stdout(out), contextlib.redirect_stderr(err_stream):
+            try:
+                code = cli.main(mode + [path])
+            except SystemExit as e:
+                code = e.code
+            except BaseException as e:  # noqa
+                crashed = _bucket(e)
+            try:
+                out.flush()
+            except Exception as e:  # noqa
+                crashed = crashed or ("flush:" + _bucket(e))
         try:
-            code = cli.main(mode + [path])
-        except SystemExit as e:
-            code = e.code
-        except BaseException as e:  # noqa
-            crashed = _bucket(e)
-        try:
-            out.flush()
-        except Exception as e:  # noqa
-            crashed = crashed or ("flush:" + _bucket(e))
-    stdout = raw_out.getvalue()
+            err_stream.flush()
+        except Exception:  # noqa
+            pass
+        for st_ in (sys.__stdout__, sys.__stderr__):
+            try:
+                st_.flush()
+            except Exception:  # noqa
+                pass
+    finally:
+        os.dup2(old1, 1)
+        os.dup2(old2, 2)
+        os.close(old1)
+        os.close(old2)
+    fo.seek(0)
+    fe.seek(0)
+    stdout = fo.read()
+
+    class _E:
+        def getvalue(self, _v=fe.read().decode("utf-8", "replace")):
+            return _v
+    err = _E()
     problems = []
     if crashed:
         problems.append(f"cli.main raised {crashed}")
